@@ -11,7 +11,8 @@ import json
 import os
 
 SYM_DIR = "/symx-traces"
-T_MAX = 2 ** 52
+T_MAX = 2 ** 40        # default bound of time variables (12.7 days in us); C01 uses 2**52 for the epoch offset
+T_EPOCH_MAX = 2 ** 52
 
 
 def is_var(x):
